@@ -25,6 +25,10 @@ CONSTRUCTS = [
     ('critic-add', '{++', '++}', 'a'), ('critic-del', '{--', '--}', 'a'), ('critic-hi', '{==', '==}', 'a'), ('critic-com', '{>>', '<<}', 'a'), ('critic-sub', '{~~', '~>x~~}', 'a'),
     ('math-paren', '\\\\(', '\\\\)', 'a'), ('link-chain', '[a](', ')', 'b'), ('emph-alternate', '*_', '_*', 'a'), ('html-open', '<div>', '</div>', 'a'),
     ('deflist-nest', None, None, None), ('footnote-in-footnote', None, None, None),
+    # notes and glossary entries written in place, each one holding fifty levels of another construct: a writer that gives every note its own
+    # depth budget never reaches its limit, while the nest as a whole is far deeper than any stack allows
+    ('note-with-parens', '[^a ' + '(' * 50, ')' * 50 + ']', 'x'), ('note-with-brackets', '[^a ' + '[' * 50, ']' * 51, 'x'), ('note-labelled', '[^a ', ']', 'x'),
+    ('glossary-with-parens', '[?(t) ' + '(' * 50, ')' * 50 + ']', 'x'), ('citation-with-parens', '[#a ' + '(' * 30, ')' * 30 + ']', 'x'),
 ]
 
 
@@ -346,6 +350,8 @@ def main():
     for idx in range(len(CONSTRUCTS)):
         rng = core.job_rng(chk.seed, ID, 'fmts', idx)
         fm = fmts_all if thorough else [D.FMT['html'], rng.choice(fmts_all[1:])]
+        if not thorough and any(w in CONSTRUCTS[idx][0] for w in ('note', 'glossary', 'citation')):
+            fm = [D.FMT['html'], D.FMT['latex'], D.FMT['fodt']]          # the three writers render notes in place in three different ways
         jobs.append((chk.seed, idx, sizes, fm, 300000 if thorough else 20000))
     chk.run_jobs(work_stack, jobs)
     cx = [i for i, cst in enumerate(CONSTRUCTS) if cst[0] in (('bracket', 'paren', 'star-emph', 'critic-add') if not thorough else ('bracket', 'image', 'paren', 'angle', 'star-emph', 'strong', 'dquote', 'critic-add', 'critic-sub', 'math-paren'))]
